@@ -466,6 +466,7 @@ def r4_default_predicates(program, rep):
 def r6_components(program, rep):
     from . import C03, C04, C10
     rep.guard("C10-R1", C10.r1_tables, program, rep)
+    rep.guard("C10-R1", C10.r1_entry_ctor, program, rep)
     rep.guard("C04-R2", C04.r2_default, program, rep)
     rep.guard("C04-R3", C04.r3_ranges, program, rep)
     rep.guard("C04-R5", C04.r5_contract, program, rep)
